@@ -3,7 +3,9 @@ use crate::compiler::prelude::*;
 fn abs(value: Value) -> Resolved {
     match value {
         Value::Float(f) => Ok(Value::from_f64_or_zero(f.abs())),
-        Value::Integer(i) => Ok(Value::from(i.abs())),
+        // `i64::MIN` has no positive counterpart: it wraps to itself instead of panicking
+        // in builds with overflow checks.
+        Value::Integer(i) => Ok(Value::from(i.wrapping_abs())),
         value => Err(ValueError::Expected {
             got: value.kind(),
             expected: Kind::float() | Kind::integer(),
